@@ -6,7 +6,7 @@ from mc import driver as D
 
 PROP = 'C10'
 RULE = ('complete product: ordered pairs (a,b) over the value alphabet x {=,<>,<,<=,>,>=} (+ the swapped b>a) x source '
-        '{override, workbook constant, literal}; non-trivial = pair judged by at least one clause of the statement '
+        '{override, workbook constant, literal, literal x cell / override mixes, bracketed operands}; non-trivial = pair judged by at least one clause of the statement '
         '(exact numeric result, same-kind laws, blank clauses, date = midnight date-time)')
 ASSUMPTIONS = ['text collation/case, number-vs-text, date-vs-number and boolean-vs-number pairs are explored but not judged '
                '(the statement does not fix them)',
@@ -14,7 +14,7 @@ ASSUMPTIONS = ['text collation/case, number-vs-text, date-vs-number and boolean-
 
 DT = datetime.datetime
 NUMS = [-10, -2, -1, 0, 1, 2, 9, 10, 0.5, 1.2, 1.7, -0.5, -1.5, 2.5, 0.1 + 0.2, 0.3, 1e-7, 1e15 + 0.5, 3.999999, 4,
-        1234567.125, 1234567.25]
+        1234567.125, 1234567.25, 1.000000000000001, 0.1234567890123456, 0.1234567890123457, -3, -2.5]
 TEXTS = ['', 'a', 'b', 'B', 'ab', '10', '9', '1.5', ' ']
 DATES = [DT(2019, 12, 31), datetime.date(2020, 1, 1), DT(2020, 1, 1), DT(2020, 1, 1, 12, 0), DT(2024, 2, 29),
          datetime.date(2024, 2, 29)]
@@ -66,6 +66,11 @@ def plan(tier, seed):
                     continue
                 yield {'a': D.enc(a), 'b': D.enc(b), 'src': side}
     phases.append({'name': 'pairs-mixed-sources', 'cases': gen_mix(), 'runner': 'run_mix', 'chunk': 150})
+
+    def gen_br():
+        for a, b in pairs:
+            yield {'a': D.enc(a), 'b': D.enc(b), 'src': 'ov-bracketed'}
+    phases.append({'name': 'pairs-bracketed-operands', 'cases': gen_br(), 'runner': 'run_ov_bracketed', 'chunk': 150})
     return phases
 
 
@@ -162,6 +167,13 @@ def judge(a, b, res, desc_base):
                 db = b if isinstance(b, DT) else DT(b.year, b.month, b.day)
                 if da == db:
                     law('date_eq_midnight', v['='] is True)
+    # a blank cell equals 0: against a number it behaves as the number 0, all six operators
+    if {ka, kb} == {'blank', 'num'}:
+        fa, fb = Fraction(a or 0), Fraction(b or 0)
+        truth = {'=': fa == fb, '<>': fa != fb, '<': fa < fb, '<=': fa <= fb, '>': fa > fb, '>=': fa >= fb}
+        for op in OPS:
+            expect(op, truth[op], 'blank_is_zero')
+        expect('swap>', fb > fa, 'blank_is_zero')
     # blank clauses (both operand orders are separate cases of the ordered-pair enumeration)
     if ka == 'blank' and kb != 'blank':
         if (kb == 'num' and b == 0) or (kb == 'text' and b == '') or (kb == 'bool' and b is False):
@@ -203,8 +215,17 @@ def _finish(cases, results, stats, src):
     return vio
 
 
-def run_ov(cases, stats):
-    sheets = [('S', {FCOL[k] + '1': D._subst(f, 1) for k, f in FORMS.items()} | {'J1': 1})]
+def run_ov_bracketed(cases, stats):
+    return run_ov(cases, stats, bracketed=True)
+
+
+def run_ov(cases, stats, bracketed=False):
+    forms = FORMS
+    if bracketed:
+        # the same comparisons with each operand in brackets, with a sign-neutral wrapper on one side
+        forms = {op: f'=(A@0){op}(B@0)' for op in OPS}
+        forms['swap>'] = '=(B@0)>(A@0)'
+    sheets = [('S', {FCOL[k] + '1': D._subst(f, 1) for k, f in forms.items()} | {'J1': 1})]
     kind_, text = D.translate(sheets)
     assert kind_ == 'TEXT', (kind_, text)
     k2, cls, _ = D.load_class(text)
@@ -222,7 +243,7 @@ def run_ov(cases, stats):
         if ov:
             ex.set_cells(ov)
         results.append({k: D.eval_cell(ex, 'S', FCOL[k], '1') for k in FORMS})
-    return _finish(cases, results, stats, 'ov')
+    return _finish(cases, results, stats, 'ov-bracketed' if bracketed else 'ov')
 
 
 def run_cell(cases, stats):
